@@ -42,6 +42,9 @@ type IGSpec struct {
 	Table   string
 	Hdr     bool // add block_time (forces headers into the plan) for lognh-like shapes
 	AddrFlt bool // log shapes: filter log_addr contains TokenAddr (pushed down to eth_getLogs)
+	// RefNeg (dep, depbd, deptup): the reference lookups use the NEGATED operator "!contains":
+	// a row is accepted when the value is NOT in the referenced table
+	RefNeg bool `json:",omitempty"`
 	// AddrOther: the address filter names OtherAddr instead of TokenAddr (used with AddrFlt)
 	AddrOther bool `json:",omitempty"`
 	// TxVal (Transfer shapes): also select block field tx_value -> plan: blocks + logs
@@ -169,8 +172,12 @@ func (ig *IGSpec) jsonConfig() map[string]any {
 		}
 		return m
 	}
+	refOp := "contains"
+	if ig.RefNeg {
+		refOp = "!contains"
+	}
 	ref := func(r string) map[string]any {
-		return map[string]any{"filter_op": "contains", "filter_ref": map[string]any{"integration": r, "column": "addr"}}
+		return map[string]any{"filter_op": refOp, "filter_ref": map[string]any{"integration": r, "column": "addr"}}
 	}
 	switch ig.Shape {
 	case "log", "lognh", "logr", "dep", "depbd":
@@ -218,7 +225,7 @@ func (ig *IGSpec) jsonConfig() map[string]any {
 		if ig.RefTable != "" {
 			fr["table"] = ig.RefTable
 		}
-		maker := input(false, "maker", "address", "maker", map[string]any{"filter_op": "contains", "filter_ref": fr})
+		maker := input(false, "maker", "address", "maker", map[string]any{"filter_op": refOp, "filter_ref": fr})
 		amt := input(false, "amt", "uint256", "amt", nil)
 		event = map[string]any{"name": "Order", "type": "event", "anonymous": false, "inputs": []any{
 			map[string]any{"indexed": false, "name": "o", "type": "tuple", "components": []any{maker, amt}},
@@ -426,19 +433,20 @@ func (ig *IGSpec) Project(c *Chain, b *Block, src string) []RowVals {
 				if !ig.accepts(l) {
 					continue
 				}
+				look := func(a []byte) bool { return created[string(a)] != ig.RefNeg } // lookup, negated with "!contains"
 				if ig.Shape == "dep" {
-					ok := created[string(l.From)]
+					ok := look(l.From)
 					if ig.Ref2 != "" { // default aggregation of filters is "or"
-						ok = ok || created[string(l.To)]
+						ok = ok || look(l.To)
 					}
 					if ig.RefBD != "" {
-						ok = ok || created[string(l.Addr)]
+						ok = ok || look(l.Addr)
 					}
 					if !ok {
 						continue
 					}
 				}
-				if ig.Shape == "depbd" && !created[string(l.Addr)] {
+				if ig.Shape == "depbd" && !look(l.Addr) {
 					continue
 				}
 				r := stamp(RowVals{"tx_idx": u64(tx.Idx), "log_idx": u64(l.Idx), "abi_idx": u64(0),
@@ -459,7 +467,7 @@ func (ig *IGSpec) Project(c *Chain, b *Block, src string) []RowVals {
 			}
 		case "deptup":
 			for _, l := range tx.Logs {
-				if l.Kind != "order" || !created[string(l.From)] {
+				if l.Kind != "order" || created[string(l.From)] == ig.RefNeg {
 					continue
 				}
 				r := stamp(RowVals{"tx_idx": u64(tx.Idx), "log_idx": u64(l.Idx), "abi_idx": u64(0), "maker": l.From, "amt": u64(l.Value)})
